@@ -75,10 +75,11 @@ impl Num {
     pub(crate) fn as_pos_usize(&self) -> Option<PosUsize> {
         match self {
             Self::Int(i) => Some(PosUsize(*i >= 0, i.unsigned_abs())),
-            Self::BigInt(i) => i
-                .magnitude()
-                .to_usize()
-                .map(|u| PosUsize(i.sign() != Sign::Minus, u)),
+            // positions beyond `usize::MAX` are outside of any array or string
+            Self::BigInt(i) => {
+                let u = i.magnitude().to_usize().unwrap_or(usize::MAX);
+                Some(PosUsize(i.sign() != Sign::Minus, u))
+            }
             _ => None,
         }
     }
